@@ -46,6 +46,9 @@ type Solver struct {
 	log   io.Writer
 	LastError string
 	sentDefs  int
+	lines     chan string
+	Dead      bool
+	timeoutMs int
 }
 
 // NewSolver starts a solver. kind: "z3", "z3-new", "cvc5".
@@ -73,7 +76,20 @@ func NewSolver(kind string, timeoutMs int, ctx *TermCtx, log io.Writer) (*Solver
 	if err := cmd.Start(); err != nil {
 		return nil, err
 	}
-	s := &Solver{Name: kind, cmd: cmd, in: in, out: bufio.NewReaderSize(outp, 1<<16), ctx: ctx, log: log}
+	s := &Solver{Name: kind, cmd: cmd, in: in, out: bufio.NewReaderSize(outp, 1<<16), ctx: ctx, log: log, timeoutMs: timeoutMs}
+	s.lines = make(chan string, 256)
+	go func() {
+		for {
+			l, err := s.out.ReadString('\n')
+			if l != "" {
+				s.lines <- strings.TrimRight(l, "\r\n")
+			}
+			if err != nil {
+				close(s.lines)
+				return
+			}
+		}
+	}()
 	s.send("(set-option :global-declarations true)")
 	s.send("(set-option :produce-models true)")
 	s.send("(set-logic ALL)")
@@ -81,6 +97,9 @@ func NewSolver(kind string, timeoutMs int, ctx *TermCtx, log io.Writer) (*Solver
 }
 
 func (s *Solver) send(line string) {
+	if s.Dead {
+		return
+	}
 	if s.log != nil {
 		fmt.Fprintln(s.log, line)
 	}
@@ -98,20 +117,32 @@ func (s *Solver) flush() {
 }
 
 func (s *Solver) readUntilMarker() []string {
+	if s.Dead {
+		return []string{"(error \"solver process is dead\")"}
+	}
 	s.send(`(echo "#done#")`)
 	var lines []string
+	// watchdog: the solver's own per-query timeout is not always honoured
+	limit := time.Duration(3*s.timeoutMs+5000) * time.Millisecond
+	timer := time.NewTimer(limit)
+	defer timer.Stop()
 	for {
-		l, err := s.out.ReadString('\n')
-		l = strings.TrimRight(l, "\r\n")
-		if strings.Contains(l, "#done#") {
-			return lines
-		}
-		if l != "" {
-			lines = append(lines, l)
-		}
-		if err != nil {
-			lines = append(lines, "(error \"solver pipe closed: "+err.Error()+"\")")
-			return lines
+		select {
+		case l, ok := <-s.lines:
+			if !ok {
+				s.Dead = true
+				return append(lines, "(error \"solver pipe closed\")")
+			}
+			if strings.Contains(l, "#done#") {
+				return lines
+			}
+			if l != "" {
+				lines = append(lines, l)
+			}
+		case <-timer.C:
+			s.Dead = true
+			s.cmd.Process.Kill()
+			return append(lines, "(error \"watchdog: solver did not answer within its time limit; killed\")")
 		}
 	}
 }
